@@ -142,6 +142,7 @@ REQUIRED_FEATURES = [
     "site:op2", "site:op28", "site:op35", "site:op5", "frames:1", "frames:2", "frames:3", "freed-something",
     "free-list-nonempty-before", "root:register-in-window", "root:frame-function-of-callee", "root:frame-closure",
     "root:global-by-name", "root:global-by-index", "root:open-upvalue", "root:current-upvalue(host call)",
+    "root:manual-buffer-slot", "object-reachable-through-a-manual-buffer-only",
     "non-root:pointer-register-above-windows", "non-root:layout-snapshot-pointer",
     "running-function-or-closure-rooted-by-frame-only", "several-running-closures-rooted-by-their-frames-only",
     "root:frame-closures-of-several-frames",
@@ -389,7 +390,8 @@ def run(ctx):
         "several running closures are rooted by their own frames only); closure programs also "
         "call a closure while its captured variable is still an open upvalue, drop Vec/Array temporaries, and end with four HOST "
         "calls (VM::call_function_by_name on closures with host-allocated string arguments: current_upvalues); plain/mixed "
-        "programs use manual buffers (alloc/store/load/free, ints only: the Alloc safepoint). feature_counts lists how many "
+        "programs use manual buffers (alloc/store/load/free: the Alloc safepoint; half of them park a fresh string and a fresh Vec "
+        "in a buffer ONLY, allocate, then load them back -- buffer slots are roots since /repo 474d1a4). feature_counts lists how many "
         "collections exercised each root source, edge kind, object kind (reachable and garbage), safepoint and frame depth")
     ctx.cov["rule"] = ("evaluations = collections audited by the direct oracle + program runs; distinct_nontrivial = distinct "
                        "(heap, roots) dumps evaluated by the Coq model + distinct programs. Oracle per collection: mark bits clear "
